@@ -45,6 +45,25 @@ fn err_word(s: &str) -> String {
     msg.replace(' ', "_")
 }
 
+/// line and column of an error message "L:C: msg"
+fn position(s: &str) -> Option<(u64, u64)> {
+    let p = s.split(": ").next()?;
+    let mut it = p.split(':');
+    match (it.next(), it.next(), it.next()) {
+        (Some(l), Some(c), None) => Some((l.parse().ok()?, c.parse().ok()?)),
+        _ => None,
+    }
+}
+
+/// The position must lie inside the file: a line that exists (or the one after
+/// the last line feed) and a column between 1 and one past the longest
+/// possible line. A wrapped-around column (line_start bookkeeping gone wrong
+/// after trim_to / split_to) or a line count that runs ahead shows up here.
+fn position_in_range(data: &[u8], l: u64, c: u64) -> bool {
+    let lines = 1 + data.iter().filter(|b| **b == b'\n').count() as u64;
+    l >= 1 && l <= lines && c >= 1 && c <= data.len() as u64 + 2
+}
+
 fn has_position(s: &str) -> bool {
     let p = s.split(": ").next().unwrap_or("");
     let mut it = p.split(':');
@@ -56,6 +75,7 @@ fn has_position(s: &str) -> bool {
 
 fn read_all_inner(data: Vec<u8>) -> (Vec<String>, End, bool) {
     let cap = data.len() + 8;
+    let data2 = data.clone();
     let r = catch(move || {
         let mut z = Zonefile::from(&data[..]);
         let mut v = vec![];
@@ -63,7 +83,7 @@ fn read_all_inner(data: Vec<u8>) -> (Vec<String>, End, bool) {
             match z.next_entry() {
                 Ok(Some(e)) => { v.push(show_entry(&e)); if v.len() > cap { return (v, End::Cap, true); } }
                 Ok(None) => return (v, End::Eof, true),
-                Err(e) => { let s = e.to_string(); return (v, End::Err(err_word(&s)), has_position(&s)); }
+                Err(e) => { let s = e.to_string(); let ok = match position(&s) { Some((l, c)) => position_in_range(&data2, l, c), None => false }; return (v, End::Err(err_word(&s)), has_position(&s) && ok); }
             }
         }
     });
@@ -132,8 +152,8 @@ fn panic_class(msg: &str, data: &[u8]) -> &'static str {
 /// the RFC 3597 `\#` marker) can possibly be formed from its octets. The test
 /// over-approximates what the tokenizer could see: backslashes are dropped,
 /// `\DDD` is decoded, and mnemonics are searched as substrings.
-const SUPPORTED: [&str; 22] = ["A", "NS", "CNAME", "SOA", "PTR", "HINFO", "MX", "TXT", "SRV", "NAPTR",
-    "MB", "MD", "MF", "MG", "MR", "DNAME", "MINFO", "RP", "SSHFP", "TLSA", "OPENPGPKEY", "NSEC3PARAM"];
+const SUPPORTED: [&str; 24] = ["A", "NS", "CNAME", "SOA", "PTR", "HINFO", "MX", "TXT", "SRV", "NAPTR",
+    "MB", "MD", "MF", "MG", "MR", "DNAME", "MINFO", "RP", "SSHFP", "TLSA", "OPENPGPKEY", "NSEC3PARAM", "NSEC", "NSEC3"];
 
 struct Elig { unsupported: Vec<Vec<u8>> }
 impl Elig {
@@ -315,7 +335,7 @@ fn totality(out: &mut Out, el: &Elig, po: &mut ParsedOracle, kind: &str, data: &
         End::Panic(m) => out.check(false, panic_class(m, data), &c, m),
         End::Hang => out.check(false, if has_overlong(data) { "overlong_utf8_hang" } else { "hang_reader" }, &c, "no result within 94 s"),
         End::Cap => out.check(false, "reader_no_progress", &c, "more entries than input octets"),
-        End::Err(_) => out.check(pos, "error_without_position", &c, ""),
+        End::Err(_) => out.check(pos, "error_position_missing_or_out_of_range", &c, "the error carries no line:column, or one that lies outside the file"),
         End::Eof => out.check(true, "panic_reader", &c, ""),
     }
     if !matches!(e, End::Hang) { po.run(out, data); }
@@ -675,7 +695,7 @@ fn gen_zone_of(r: &mut Rng, model_types: bool) -> Vec<Item> {
         let ttl = *r.pick(&[0u32, 60, 300, 300, 3600, 3600, 86400, 2147483647]);
         let plain = r.chance(3, 4);
         let nm = |r: &mut Rng| Field::Name(if r.chance(1, 6) { vec![] } else if r.chance(1, 5) { origin.clone() } else { gen_name(r, &origin, plain) });
-        let pickt = if model_types { *r.pick(&[0u64, 2, 3, 4, 5, 6, 7, 7, 8, 9, 10, 12, 13, 13, 14, 15, 16, 16, 17, 18, 18, 19, 19]) } else { r.below(20) };
+        let pickt = if model_types { *r.pick(&[0u64, 2, 3, 4, 5, 6, 7, 7, 8, 9, 10, 12, 13, 13, 14, 15, 16, 16, 17, 18, 18, 19, 19, 20, 20, 21, 21]) } else { r.below(22) };
         let (rtype, fields): (&'static str, Vec<Field>) = match pickt {
             0 => ("A", vec![Field::Word(format!("{}.{}.{}.{}", r.below(256), r.below(256), r.below(256), r.below(256)))]),
             1 => ("AAAA", vec![Field::Word(r.pick(&["2001:db8::1", "::", "::1", "fe80::1:2:3:4", "1:2:3:4:5:6:7:8", "::ffff:192.0.2.1"]).to_string())]),
@@ -696,6 +716,19 @@ fn gen_zone_of(r: &mut Rng, model_types: bool) -> Vec<Item> {
             16 => { let mut f = vec![Field::Int(r.below(256)), Field::Int(r.below(256)), Field::Int(r.below(256))]; f.extend(hex_words(r)); ("TLSA", f) }
             17 => (*r.pick(&["MB", "MD", "MF", "MG", "MR"]), vec![nm(r)]),
             18 => ("OPENPGPKEY", b64_words(r)),
+            20 => {
+                let mut f = vec![nm(r)];
+                for _ in 0..r.below(6) { f.push(Field::Word(r.pick(&SUPPORTED).to_string())); }
+                ("NSEC", f)
+            }
+            21 => {
+                let salt = if r.chance(1, 4) { "-".to_string() } else { let n = 1 + r.below(6) as usize; (0..2 * n).map(|_| *r.pick(b"0123456789abcdefABCDEF") as char).collect() };
+                let hl = *r.pick(&[2usize, 4, 5, 7, 8, 16, 32, 10, 15]);
+                let hash: String = (0..hl).map(|_| *r.pick(b"0123456789abcdefghijklmnopqrstuvABCDEFGHIJKLMNOPQRSTUV") as char).collect();
+                let mut f = vec![Field::Int(r.below(256)), Field::Int(r.below(256)), Field::Int(r.below(65536)), Field::Word(salt), Field::Word(hash)];
+                for _ in 0..r.below(6) { f.push(Field::Word(r.pick(&SUPPORTED).to_string())); }
+                ("NSEC3", f)
+            }
             _ => {
                 let salt = if r.chance(1, 4) { "-".to_string() } else { let n = 1 + r.below(6) as usize; (0..2 * n).map(|_| *r.pick(b"0123456789abcdefABCDEF") as char).collect() };
                 ("NSEC3PARAM", vec![Field::Int(r.below(256)), Field::Int(r.below(256)), Field::Int(r.below(65536)), Field::Word(salt)])
@@ -780,6 +813,8 @@ fn main() {
         b"a. 1 IN DS 1 1 1 \xC0\xA0\n", b"a. 1 IN SSHFP 1 1 \xC0\xA0\n", b"a. 1 IN SSHFP 1 1 ab c\n", b"a. 1 IN SSHFP 1 1 a (\n b ) ; x\n",
         b"a. 1 IN A \\# 4 01 02 0304\n", b"a. 1 IN A \\# 3 01020304\n", b"a. 1 IN TXT \\# 0\n", b"a. 1 IN TXT \\#\n", b"a. 1 IN TXT \\#x\n",
         b"a. 1 IN MX \\# 65536 00\n", b"a. 1 IN MX \\#\nb. 1 IN A 1.2.3.4\n", b"a. 1 IN MX \"\\#\" 1 00\n", b"a. 1 IN MX \\#( 1 00 )\n",
+        b"a. 1 IN NSEC b. A NS SOA TXT NSEC\n", b"a. 1 IN NSEC b.\n", b"a. 1 IN NSEC b. A A TYPE65535 TYPE256 TYPE0\n", b"a. 1 IN NSEC b. A BOGUS\n", b"a. 1 IN NSEC b. (A\n NS ) ; c\n", b"a. 1 IN NSEC b. A",
+        b"a. 1 IN NSEC3 1 0 10 aabb 2t7b4g4vsa5smi47k61mv5bv1a22bojr A NS\n", b"a. 1 IN NSEC3 1 0 10 - 2t7b4g4v\n", b"a. 1 IN NSEC3 1 0 10 - 2t7 A\n", b"a. 1 IN NSEC3 1 0 10 - 2w A\n", b"a. 1 IN NSEC3 1 0 10 - \"2t7b\" A\n", b"a. 1 IN NSEC3 1 0 10 -\n",
         b"a. 1 IN NSEC3PARAM 1 0 10 aabb\n", b"a. 1 IN NSEC3PARAM 1 0 10 -\n", b"a. 1 IN NSEC3PARAM 1 0 10 -a\n", b"a. 1 IN NSEC3PARAM 1 0 10 abc\n", b"a. 1 IN NSEC3PARAM 1 0 10 \"aa\"bb\n",
         b"a. 1 IN NSEC3PARAM 1 0 10 a\\098\n", b"a. 1 IN NSEC3PARAM 1 0 10 \\-\n", b"a. 1 IN NSEC3PARAM 256 0 10 aa\n", b"a. 1 IN NSEC3PARAM 1 0 10 aa", b"a. 1 IN NSEC3PARAM 1 0 10\n",
         b"a. 1 IN OPENPGPKEY AQID\n", b"a. 1 IN OPENPGPKEY AQ== x\n", b"a. 1 IN OPENPGPKEY AQI\n", b"a. 1 IN OPENPGPKEY A=ID\n", b"a. 1 IN OPENPGPKEY AQ (\n ID ) \n",
